@@ -2,23 +2,11 @@
 
 package world
 
-import (
-	"github.com/buzzfeed/sso/internal/auth"
-	"github.com/buzzfeed/sso/internal/pkg/sessions"
-	"github.com/buzzfeed/sso/internal/pkg/verifpools"
-	"github.com/buzzfeed/sso/internal/pkg/validators"
-	"github.com/buzzfeed/sso/internal/proxy"
-	proxyproviders "github.com/buzzfeed/sso/internal/proxy/providers"
-)
+import "github.com/buzzfeed/sso/internal/pkg/verifpools"
 
-// Compiled only together with the yieldgen overlay (which adds VerifYieldHook to these packages).
+// Compiled only together with the yieldgen overlay (which adds the scheduling points, the pool
+// stand-ins and the registry package to the services' sources).
 func init() {
 	resetPools = verifpools.ResetAll
-	installPauseHooks = func(h func(kind, site string, m interface{})) {
-		proxy.VerifYieldHook = h
-		auth.VerifYieldHook = h
-		sessions.VerifYieldHook = h
-		validators.VerifYieldHook = h
-		proxyproviders.VerifYieldHook = h
-	}
+	installPauseHooks = verifpools.InstallHook
 }
